@@ -1130,7 +1130,7 @@ Proof.
   { intros x Hx. unfold tg'. apply set_tags_out. intros [E|[]]; congruence. }
   assert (HE : Ext tg h tg' h').
   { intros y Fy. assert (y <> s) by neq. assert (y <> a) by neq.
-    rewrite Tn by assumption. split; [assumption|]. rewrite Hh by assumption. apply oeqv_refl. }
+    rewrite Tn by assumption. split; [assumption|]. unfold h'. rewrite !hgetv_hset_other by auto. apply veqv_refl. }
   split; [|assumption].
   eapply inv_frame with (W := [s; a]); eauto.
   - intros y Hn. assert (y <> s) by (intros ->; apply Hn; left; reflexivity).
